@@ -63,14 +63,39 @@ def install(ctx, state):
     stubs = {}
 
     def prepare(ctx_, args, ci, dt):
-        return ok(Opaque('statement'))
+        # the cursor serves the table the SQL text names; a statement over any other table than the driver knows is not modelled
+        import re as _re
+        sql = deref(args[1])
+        text = sql.lit.decode() if isinstance(sql, S) and sql.lit is not None else ''
+        m = _re.search(r'FROM\s+(\w+)', text, _re.I)
+        table = m.group(1) if m else '_node'
+        state.setdefault('statements', []).append(text)
+        if table != '_node' and table not in state.get('tables', {}):
+            raise Unsupported('SQL over table %s is not modelled by this driver: %s' % (table, ' '.join(text.split())[:120]))
+        cols = None
+        if table != '_node':
+            mm = _re.search(r'SELECT\s+(.*?)\s+FROM', text, _re.I | _re.S)
+            cols = [c.strip() for c in mm.group(1).split(',')] if mm else None
+            if cols is None:
+                raise Unsupported('cannot read the column list of: %s' % text[:120])
+        return ok(Opaque('statement', dict(table=table, cols=cols)))
 
     def query(ctx_, args, ci, dt):
-        return ok(Opaque('rows', dict(i=0)))
+        st = deref(args[0]).data or dict(table='_node', cols=None)
+        if st['table'] == '_node':
+            rows = state['rows']
+        else:
+            rows = []
+            for r in state['tables'][st['table']]:
+                missing = [c for c in st['cols'] if c not in r]
+                if missing:
+                    raise Unsupported('column %s of %s is not modelled' % (missing[0], st['table']))
+                rows.append([r[c] for c in st['cols']])
+        return ok(Opaque('rows', dict(i=0, rows=rows)))
 
     def rows_next(ctx_, args, ci, dt):
         r = deref(args[0])
-        rows = state['rows']
+        rows = r.data['rows']
         if r.data['i'] >= len(rows):
             return ok(none())
         row = rows[r.data['i']]
